@@ -6,6 +6,7 @@ import (
 
 	"github.com/libp2p/go-libp2p/p2p/host/eventbus"
 
+	"berty.tech/go-ipfs-log/entry/sorting"
 	"berty.tech/go-ipfs-log/identityprovider"
 	orbitdb "berty.tech/go-orbit-db"
 	"berty.tech/go-orbit-db/accesscontroller"
@@ -31,6 +32,7 @@ func DefaultOrbitDBOptions(g *protocoltypes.Group, options *orbitdb.CreateDBOpti
 		Cache:                   options.Cache,
 		EventBus:                options.EventBus,
 		Logger:                  options.Logger,
+		SortFn:                  options.SortFn,
 	}
 
 	t := true
@@ -38,6 +40,13 @@ func DefaultOrbitDBOptions(g *protocoltypes.Group, options *orbitdb.CreateDBOpti
 
 	if options.EventBus == nil {
 		options.EventBus = eventbus.NewBus()
+	}
+
+	// every writer of a group signs with the group's identity, so concurrent
+	// entries tie on (clock time, clock id): break ties on the entry hash to
+	// give all replicas the same order, whatever the order of arrival
+	if options.SortFn == nil {
+		options.SortFn = sorting.SortByEntryHash
 	}
 
 	if options.AccessController == nil {
